@@ -259,7 +259,7 @@ def runLoopSt (hash256 : Bytes → Bytes) : Nat → TreeSt → TreeSt × Option 
     exception): the tree afterwards and the outcome.  Nodes, cursor and `proved_txs` persist between calls.
     Resuming half way, up to `max_depth` ancestors are revisited without popping a flag bit, hence the fuel. -/
 def populateOn (hash256 : Bytes → Bytes) (t : TreeSt) (flagBits : List Bool) (hashes : List Bytes) : TreeSt × PopOut :=
-  let r := runLoopSt hash256 (3 * flagBits.length + 3 * t.maxD + 4) { t with flagBits := flagBits, hashes := hashes }
+  let r := runLoopSt hash256 (3 * flagBits.length + 4 + 3 * t.maxD) { t with flagBits := flagBits, hashes := hashes }
   match r.2 with
   | none => (r.1, .error)
   | some none => (r.1, .outOfFuel)
